@@ -13,9 +13,15 @@
   * `ops` — the same for ANY sequence of add / modify / remove operations on one collection
     (the function-level statement, independent of the simulation step; re-adding an existing id
     replaces the entity and its index entries);
-  * `stations_fixed`, `bases_fixed` — stations and bases never change cell.
+  * `stations_fixed`, `bases_fixed` — stations and bases never change cell;
+  * `reachable_lookup`, `reachable_station_search`, `reachable_base_search`, `ops_lookup`,
+    `at_exact`, `search_exact`, `search_finds` — the read side: `at_geoid` reports exactly the
+    entities standing at the cell, `get_entities_at_cell` exactly those the search cell encloses,
+    and the ring search `nearest_entity` finds an accepted entity whenever one is registered
+    within its rings.
 -/
 import Proofs.C08
+import Proofs.Lookup
 
 namespace Hive
 namespace C08
@@ -242,6 +248,94 @@ theorem bases_fixed (env : Env) {s0 s : Sim} (hwf : s0.WF) (h : Reachable env s0
     · intro s s' i _ hi h
       exact hp.rem hi h
   exact congrFun (reachable_inv hI hwf rfl h) i
+
+
+/-! ### the read side: an entity is *found* at exactly its cell and its enclosing search cell
+
+`Lookup.atCell` is one category of `SimulationState.at_geoid`, `Lookup.entitiesAtCell` is
+`H3Ops.get_entities_at_cell`, `Lookup.nearest` is the ring search `H3Ops.nearest_entity` (the rings
+are whatever `h3.k_ring` produced; the caller's `is_valid` and `distance_function` are arbitrary). -/
+
+section Read
+variable {α : Type} {key : α → Nat} {cell : α → Cell} {parent : Cell → Cell} {ix : Index} {ents : List α}
+
+private theorem pairs_cell (hn : (ents.map key).Nodup) :
+    ∀ e ∈ ents.map (fun x => (key x, cell x)), (fun i => (lookup key ents i).map cell) e.1 = some e.2 := by
+  rintro _ hm
+  obtain ⟨x, hx, rfl⟩ := List.mem_map.mp hm
+  simp only [lookup_of_mem hn hx, Option.map_some]
+
+/-- location lookup: an id is reported at a cell iff an entity with that id stands at that cell -/
+theorem at_exact (h : IdxInv parent ix (fun i => (lookup key ents i).map cell)) (c : Cell) (i : Nat) :
+    i ∈ Lookup.atCell ix c ↔ ∃ x, lookup key ents i = some x ∧ cell x = c := by
+  rw [Lookup.atCell_exact h]
+  cases lookup key ents i <;> simp
+
+/-- the coarse index: the entities reported for a search cell are exactly those it encloses -/
+theorem search_exact (hn : (ents.map key).Nodup) (h : IdxInv parent ix (fun i => (lookup key ents i).map cell))
+    (sc : Cell) (x : α) (hx : x ∈ ents) :
+    (key x, cell x) ∈ Lookup.entitiesAtCell ix.search (ents.map fun x => (key x, cell x)) sc ↔ parent (cell x) = sc := by
+  rw [Lookup.entitiesAtCell_exact h (pairs_cell hn)]
+  exact ⟨fun h => h.2, fun h => ⟨List.mem_map.mpr ⟨x, hx, rfl⟩, h⟩⟩
+
+/-- the ring search finds every registered entity: if an accepted entity's enclosing search cell
+    lies in one of the rings, the search answers, and its answer is an accepted entity whose search
+    cell lies in the rings -/
+theorem search_finds (hn : (ents.map key).Nodup) (h : IdxInv parent ix (fun i => (lookup key ents i).map cell))
+    (valid : Nat → Bool) (dist : Nat → Rat) (rings : List (List Cell)) {x : α} (hx : x ∈ ents)
+    (hv : valid (key x) = true) (hd : dist (key x) < 1000000) (hr : ∃ ring ∈ rings, parent (cell x) ∈ ring) :
+    ∃ r, Lookup.nearest ix.search (ents.map fun x => (key x, cell x)) valid dist rings = some r ∧
+      r ∈ ents.map (fun x => (key x, cell x)) ∧ valid r.1 = true ∧ ∃ ring ∈ rings, parent r.2 ∈ ring := by
+  have hs := Lookup.nearest_finds h (pairs_cell hn) valid dist rings
+    (e := (key x, cell x)) (List.mem_map.mpr ⟨x, hx, rfl⟩) hv hd hr
+  cases hr' : Lookup.nearest ix.search (ents.map fun x => (key x, cell x)) valid dist rings with
+  | none => rw [hr'] at hs; cases hs
+  | some r => exact ⟨r, rfl, Lookup.nearest_sound h (pairs_cell hn) valid dist rings hr'⟩
+
+end Read
+
+/-- **C08, lookups, over simulation histories**: in every reachable state each of the four
+    location lookups reports exactly the entities standing at the cell asked for -/
+theorem reachable_lookup (env : Env) {s0 s : Sim} (hwf : s0.WF) (h0 : Inv08 env s0) (h : Reachable env s0 s) (c : Cell) (i : Nat) :
+    (i ∈ Lookup.atCell s.vIdx c ↔ ∃ v, s.vehicle? i = some v ∧ v.pos.cell = c) ∧
+    (i ∈ Lookup.atCell s.rIdx c ↔ ∃ r, s.request? i = some r ∧ r.pos.cell = c) ∧
+    (i ∈ Lookup.atCell s.sIdx c ↔ ∃ x, s.station? i = some x ∧ x.pos.cell = c) ∧
+    (i ∈ Lookup.atCell s.bIdx c ↔ ∃ b, s.base? i = some b ∧ b.pos.cell = c) := by
+  have hI := reachable_inv (runInv env) hwf h0 h
+  exact ⟨at_exact hI.veh c i, at_exact hI.req c i, at_exact hI.stn c i, at_exact hI.base c i⟩
+
+/-- **C08, coarse search, over simulation histories**: in every reachable state the ring search
+    over the station index (the instruction generators' station search) finds an accepted station
+    whenever one is registered within the rings; the same holds for bases (the drivers' home
+    search) and, by `search_finds`, for every collection -/
+theorem reachable_station_search (env : Env) {s0 s : Sim} (hwf : s0.WF) (h0 : Inv08 env s0) (h : Reachable env s0 s)
+    (valid : Nat → Bool) (dist : Nat → Rat) (rings : List (List Cell)) {x : Station} (hx : x ∈ s.stations)
+    (hv : valid x.id = true) (hd : dist x.id < 1000000) (hr : ∃ ring ∈ rings, env.parent x.pos.cell ∈ ring) :
+    ∃ r, Lookup.nearest s.sIdx.search (s.stations.map fun x => (x.id, x.pos.cell)) valid dist rings = some r ∧
+      r ∈ s.stations.map (fun x => (x.id, x.pos.cell)) ∧ valid r.1 = true ∧ ∃ ring ∈ rings, env.parent r.2 ∈ ring :=
+  search_finds (reachable_wf hwf h).stn (reachable_inv (runInv env) hwf h0 h).stn valid dist rings hx hv hd hr
+
+theorem reachable_base_search (env : Env) {s0 s : Sim} (hwf : s0.WF) (h0 : Inv08 env s0) (h : Reachable env s0 s)
+    (valid : Nat → Bool) (dist : Nat → Rat) (rings : List (List Cell)) {x : Base} (hx : x ∈ s.bases)
+    (hv : valid x.id = true) (hd : dist x.id < 1000000) (hr : ∃ ring ∈ rings, env.parent x.pos.cell ∈ ring) :
+    ∃ r, Lookup.nearest s.bIdx.search (s.bases.map fun x => (x.id, x.pos.cell)) valid dist rings = some r ∧
+      r ∈ s.bases.map (fun x => (x.id, x.pos.cell)) ∧ valid r.1 = true ∧ ∃ ring ∈ rings, env.parent r.2 ∈ ring :=
+  search_finds (reachable_wf hwf h).base (reachable_inv (runInv env) hwf h0 h).base valid dist rings hx hv hd hr
+
+/-- the same after any operation sequence on one collection -/
+theorem ops_lookup (parent : Cell → Cell) (os : List Op) (c : Cell) (i : Nat) :
+    let coll := os.foldl (applyOp parent) Coll.empty
+    i ∈ Lookup.atCell coll.ix c ↔ ∃ e, lookup Ent.id coll.ents i = some e ∧ e.cell = c := by
+  have : ∀ (os : List Op) (c : Coll), CollInv parent c → CollInv parent (os.foldl (applyOp parent) c) := by
+    intro os
+    induction os with
+    | nil => intro c h; exact h
+    | cons o os ih => intro c h; exact ih _ (applyOp_inv parent h o)
+  exact at_exact (this os Coll.empty (empty_inv parent)).2 c i
+
+/-- not vacuous: two invalid entities in the near cell, the accepted one a ring further out -/
+example : Lookup.nearest [(1, [1, 2]), (2, [3])] [(1, 11), (2, 12), (3, 25)] (fun i => i == 3) (fun _ => 1) [[1], [1, 2]]
+    = some (3, 25) := by decide
 
 /-! non-vacuity: moves inside a search cell, across search cells, back again, shared cells -/
 private def par (c : Cell) : Cell := c / 10
